@@ -11,6 +11,7 @@
   hypothesis `Ids U` says that within the universe `U` of events in play this identifies them.
 -/
 import VModel.Auth
+import VProofs.AuthNeededProviders
 namespace V.C09
 open V V.Json V.GoJson V.Auth
 
@@ -347,5 +348,172 @@ theorem freshOf_congr (p q : Provider) (h1 : p.create = q.create) (h2 : p.powerL
     cases plInfo q.powerLevels (senderOfOpt ce) with
     | error v => rfl
     | ok r2 => rfl
+
+
+/-! ## The verdict needs only the state StateNeededForAuth names
+
+`stateNeeded e` (VModel/StateRes.lean) is the model of `StateNeededForAuth([]PDU{e})`, `neededPairs` of `Tuples()`,
+`selectNeeded p e` of the events `AuthEventReferences` / `AddAuthEvents` select (VModel/AuthNeeded.lean).
+`Agree e p q`: the providers answer alike for every needed pair.  `Modelled v`: the verdict is not `unmodelled`. -/
+
+section Needed
+open V.StateRes V.AuthNeeded
+
+/-- **The verdict needs only the needed state.**  For every event `e`, providers `p`, `q` and signature-oracle bit: if
+    `p` and `q` have the same Valid() bit and answer alike for every (type, state_key) pair that StateNeededForAuth names
+    for `e`, then `Allowed` gives the same verdict (accept / reject) on both.
+    Side conditions: the room ID is one the event constructors accept (`e.roomID ≠ []`), and both verdicts are inside the
+    modelled domain (the model answers `unmodelled` for IPv6 literals / float levels in the cached create and
+    power-levels events, which the check of e.g. a create event never needs).
+    The conclusion is equality of `.coarse` and not of the `Verdict` values for ONE reason: for a membership event
+    without content StateNeededForAuth names nothing, the check still fails in an order that depends on other state, so
+    the error CLASS (NotAllowed vs. another error) can differ; `verdict_needs_only_needed_exact` gives equality of the
+    values in every other case. -/
+theorem verdict_needs_only_needed (e : Event) (p q : Provider) (sig : Bool) (hr : e.roomID ≠ [])
+    (hv : p.valid = q.valid) (ha : ∀ tk ∈ neededPairs (stateNeeded e), p.get tk.1 tk.2 = q.get tk.1 tk.2)
+    (hp : Modelled (allowedFresh e p sig)) (hq : Modelled (allowedFresh e q sig)) :
+    (allowedFresh e p sig).coarse = (allowedFresh e q sig).coarse :=
+  verdict_coarse e p q sig hr hv ha hp hq
+
+/-- the same with EQUAL verdict values, for every event that is not a membership event with absent / null content -/
+theorem verdict_needs_only_needed_exact (e : Event) (p q : Provider) (sig : Bool) (hc : hasContent e = true)
+    (hv : p.valid = q.valid) (ha : ∀ tk ∈ neededPairs (stateNeeded e), p.get tk.1 tk.2 = q.get tk.1 tk.2)
+    (hp : Modelled (allowedFresh e p sig)) (hq : Modelled (allowedFresh e q sig)) :
+    allowedFresh e p sig = allowedFresh e q sig :=
+  verdict_exact e p q sig hv ha hc hp hq
+
+/-- **Insertion order is irrelevant.**  Event lists that are permutations of each other, with pairwise distinct
+    (type, state_key), give providers that answer every lookup alike, have the same Valid() bit, and hence give EQUAL
+    verdicts for every event (no side condition). -/
+theorem insertion_order_irrelevant (l1 l2 : List Event) (hp : l1.Perm l2) (hd : DistinctKeys l1) (i1 i2 : Nat) :
+    (∀ t k, (Provider.ofEvents l1 i1).get t k = (Provider.ofEvents l2 i2).get t k)
+    ∧ (Provider.ofEvents l1 i1).valid = (Provider.ofEvents l2 i2).valid
+    ∧ ∀ e sig, allowedFresh e (Provider.ofEvents l1 i1) sig = allowedFresh e (Provider.ofEvents l2 i2) sig := by
+  have hg : ∀ t k, (Provider.ofEvents l1 i1).get t k = (Provider.ofEvents l2 i2).get t k := by
+    intro t k
+    rw [get_ofEvents l1 t k i1, get_ofEvents l2 t k i2]
+    exact lastWith_perm hp hd t k
+  exact ⟨hg, valid_perm hp i1 i2, fun e sig => verdict_of_gets e _ _ sig (valid_perm hp i1 i2) hg⟩
+
+/-- the key of an event is one of the needed pairs -/
+def neededKey (e x : Event) : Bool :=
+  (neededPairs (stateNeeded e)).any (fun tk => isKey tk.1 tk.2 x)
+
+/-- **Unrelated state is irrelevant (removed).**  Dropping from a one-room state any events whose (type, state_key) the
+    event does not need leaves the verdict unchanged. -/
+theorem unrelated_state_irrelevant (e : Event) (l : List Event) (keep : Event → Bool) (sig : Bool) (hr : e.roomID ≠ [])
+    (hroom : SameRoom l) (hk : ∀ x, neededKey e x = true → keep x = true)
+    (hp : Modelled (allowedFresh e (Provider.ofEvents l) sig))
+    (hq : Modelled (allowedFresh e (Provider.ofEvents (l.filter keep)) sig)) :
+    (allowedFresh e (Provider.ofEvents l) sig).coarse = (allowedFresh e (Provider.ofEvents (l.filter keep)) sig).coarse := by
+  apply verdict_needs_only_needed e _ _ sig hr _ _ hp hq
+  · have h1 : (Provider.ofEvents l).valid = true := (valid_ofEvents l).mpr hroom
+    have h2 : (Provider.ofEvents (l.filter keep)).valid = true :=
+      (valid_ofEvents _).mpr (fun a ha b hb => hroom a (List.mem_filter.mp ha).1 b (List.mem_filter.mp hb).1)
+    rw [h1, h2]
+  · intro tk htk
+    rw [get_ofEvents, get_ofEvents, lastWith_filter]
+    intro x hx
+    apply hk
+    unfold neededKey
+    exact List.any_eq_true.mpr ⟨tk, htk, hx⟩
+
+/-- **Unrelated state is irrelevant (added).**  Appending same-room events whose (type, state_key) the event does not
+    need leaves the verdict unchanged. -/
+theorem unrelated_state_added (e : Event) (l x : List Event) (sig : Bool) (hr : e.roomID ≠ [])
+    (hroom : SameRoom (l ++ x)) (hx : ∀ a ∈ x, neededKey e a = false)
+    (hp : Modelled (allowedFresh e (Provider.ofEvents l) sig))
+    (hq : Modelled (allowedFresh e (Provider.ofEvents (l ++ x)) sig)) :
+    (allowedFresh e (Provider.ofEvents l) sig).coarse = (allowedFresh e (Provider.ofEvents (l ++ x)) sig).coarse := by
+  apply verdict_needs_only_needed e _ _ sig hr _ _ hp hq
+  · have h1 : (Provider.ofEvents (l ++ x)).valid = true := (valid_ofEvents _).mpr hroom
+    have h2 : (Provider.ofEvents l).valid = true :=
+      (valid_ofEvents _).mpr (fun a ha b hb => hroom a (List.mem_append_left _ ha) b (List.mem_append_left _ hb))
+    rw [h1, h2]
+  · intro tk htk
+    rw [get_ofEvents, get_ofEvents, lastWith_append]
+    intro a ha
+    have := hx a ha
+    unfold neededKey at this
+    rw [Bool.eq_false_iff] at this ⊢
+    intro hk
+    exact this (List.any_eq_true.mpr ⟨tk, htk, hk⟩)
+
+/-- **The auth events `AddAuthEvents` selects are sufficient.**  `selectNeeded p e` is what
+    `StateNeededForAuth(e).AuthEventReferences(p)` refers to: the provider's event for every pair of `Tuples()`, pairs
+    without an event skipped.  For a valid one-room provider `p`, every server that builds its provider from exactly those
+    events reaches the verdict `p` gives. -/
+theorem add_auth_events_sufficient (e : Event) (p : Provider) (sig : Bool) (ident : Nat) (hr : e.roomID ≠ [])
+    (hv : p.valid = true) (hroom : SameRoom p.events)
+    (hp : Modelled (allowedFresh e p sig))
+    (hq : Modelled (allowedFresh e (Provider.ofEvents (selectNeeded p e) ident) sig)) :
+    (allowedFresh e (Provider.ofEvents (selectNeeded p e) ident) sig).coarse = (allowedFresh e p sig).coarse := by
+  apply verdict_needs_only_needed e _ _ sig hr _ _ hq hp
+  · rw [hv]
+    exact (valid_ofEvents _ ident).mpr (fun a ha b hb => hroom a (select_subset p e a ha) b (select_subset p e b hb))
+  · intro tk htk
+    exact get_select p e tk.1 tk.2 htk ident
+
+/-- a provider built by `NewAuthEvents` from a one-room list satisfies the hypotheses of `add_auth_events_sufficient` -/
+theorem ofEvents_sameRoom (l : List Event) (ident : Nat) (h : SameRoom l) :
+    (Provider.ofEvents l ident).valid = true ∧ SameRoom (Provider.ofEvents l ident).events :=
+  ⟨(valid_ofEvents l ident).mpr h,
+   fun a ha b hb => h a (ofEvents_events_subset l ident a ha) b (ofEvents_events_subset l ident b hb)⟩
+
+/-! ### non-vacuity: a restricted join with an authorising user, unrelated state present -/
+
+/-- a small concrete event (event format 2, room `!r:x`) -/
+def mkEv (id type sender : Bytes) (sk : Option Bytes) (content : List (Bytes × JVal)) : Event :=
+  { ver := b!"10", eventID := id,
+    obj := [(b!"type", .str type), (b!"sender", .str sender), (b!"room_id", .str b!"!r:x"), (b!"content", .obj content),
+            (b!"prev_events", .arr [.str b!"$p"])]
+           ++ (match sk with | some k => [(b!"state_key", .str k)] | none => []) }
+
+def xCreate : Event := mkEv b!"$c" b!"m.room.create" b!"@c:x" (some []) [(b!"creator", .str b!"@c:x")]
+def xJoinRules : Event := mkEv b!"$j" b!"m.room.join_rules" b!"@c:x" (some []) [(b!"join_rule", .str b!"restricted")]
+def xPL : Event := mkEv b!"$l" b!"m.room.power_levels" b!"@c:x" (some [])
+  [(b!"users", .obj [(b!"@c:x", .num b!"100"), (b!"@auth:x", .num b!"50")]), (b!"invite", .num b!"50")]
+def xAuthMember : Event := mkEv b!"$m" b!"m.room.member" b!"@auth:x" (some b!"@auth:x") [(b!"membership", .str b!"join")]
+def xName : Event := mkEv b!"$n" b!"m.room.name" b!"@c:x" (some []) [(b!"name", .str b!"n")]
+def xZed : Event := mkEv b!"$z" b!"m.room.member" b!"@zed:x" (some b!"@zed:x") [(b!"membership", .str b!"ban")]
+/-- the event under test: @a:x joins, authorised by @auth:x -/
+def xJoin : Event := mkEv b!"$e" b!"m.room.member" b!"@a:x" (some b!"@a:x")
+  [(b!"membership", .str b!"join"), (b!"join_authorised_via_users_server", .str b!"@auth:x")]
+
+def xFull : List Event := [xName, xCreate, xZed, xJoinRules, xPL, xAuthMember]
+
+theorem modelled_ok {v : Verdict} (h : v = .ok) : Modelled v := by
+  intro w hw; rw [h] at hw; cases hw
+
+/-- the join is accepted against the full state, and what is selected for it are the create, join-rules, power-levels
+    events and the authoriser's membership (the sender has no member event; m.room.name and @zed's ban are unrelated) -/
+example : allowedFresh xJoin (Provider.ofEvents xFull) false = .ok
+    ∧ (selectNeeded (Provider.ofEvents xFull) xJoin).map (·.eventID) = [b!"$c", b!"$j", b!"$l", b!"$m"] := by
+  decide +kernel
+
+/-- `add_auth_events_sufficient` and `verdict_needs_only_needed` apply to it (hypotheses satisfiable, conclusion non-trivial) -/
+example : (allowedFresh xJoin (Provider.ofEvents (selectNeeded (Provider.ofEvents xFull) xJoin)) false).coarse = "ok" := by
+  have hs : SameRoom xFull := by
+    intro a ha b hb
+    have h : ∀ x ∈ xFull, x.roomID = b!"!r:x" := by decide +kernel
+    rw [h a ha, h b hb]
+  obtain ⟨hv, hroom⟩ := ofEvents_sameRoom xFull 0 hs
+  have hok : allowedFresh xJoin (Provider.ofEvents xFull) false = .ok := by decide +kernel
+  have hok2 : allowedFresh xJoin (Provider.ofEvents (selectNeeded (Provider.ofEvents xFull) xJoin)) false = .ok := by decide +kernel
+  rw [add_auth_events_sufficient xJoin (Provider.ofEvents xFull) false 0 (by decide +kernel) hv hroom (modelled_ok hok) (modelled_ok hok2), hok]
+  rfl
+
+/-- `insertion_order_irrelevant` and `unrelated_state_irrelevant` on the same state: reversed order, unrelated events dropped -/
+example : allowedFresh xJoin (Provider.ofEvents xFull.reverse) false = .ok := by
+  have hd : DistinctKeys xFull := by
+    unfold DistinctKeys xFull
+    decide +kernel
+  rw [← (insertion_order_irrelevant xFull xFull.reverse (List.reverse_perm xFull).symm hd 0 0).2.2 xJoin false]
+  decide +kernel
+
+example : (neededKey xJoin xName, neededKey xJoin xZed, neededKey xJoin xAuthMember, neededKey xJoin xCreate)
+    = (false, false, true, true) := by decide +kernel
+
+end Needed
 
 end V.C09
